@@ -1232,7 +1232,12 @@ class ExecutionTracer(AbstractExecutionTracer):  # noqa: PLR0904
         exc_value: BaseException | None,
         traceback: TracebackType | None,
     ) -> None:
-        self.stop()
+        # Only the thread that currently owns the tracer may release it.  A thread
+        # whose execution was abandoned after a timeout can reach this point much
+        # later; stopping the tracer then would abort the unrelated test case that
+        # is being executed at that moment.
+        if threading.current_thread().ident == self._current_thread_identifier:
+            self.stop()
 
     def check(self) -> None:  # noqa: D102
         if threading.current_thread().ident != self._current_thread_identifier:
